@@ -187,11 +187,18 @@ func VariantBytes(t *rapid.T) []byte {
 			b = append(b, u32(2)...)
 			b = append(b, u32(uint32(max(1, real/2)))...)
 			b = append(b, u32(2)...)
-		case 2: // overflowing product
-			b = append(b, u32(3)...)
-			b = append(b, u32(65536)...)
-			b = append(b, u32(65536)...)
-			b = append(b, u32(uint32(rapid.SampledFrom([]int32{1, 16, 65536}).Draw(t, "hvd3")))...)
+		case 2: // products that overflow int32 and / or int64 (wrap to 0 or to the array length)
+			menu := [][]uint32{
+				{65536, 65536, 1}, {65536, 65536, 16}, {65536, 65536, 65536},
+				{65536, 65536, 65536, 65536}, {65536, 65536, 65536, 65536, 3},
+				{1 << 30, 1 << 30, 16}, {1<<31 - 1, 1<<31 - 1, 4}, {1 << 16, 1 << 16, 1 << 16, 1 << 15, 2},
+				{3, 5, 17, 257, 641, 65537, 6700417}, // product = 2^64 - 1 (== -1 in int64)
+			}
+			dims := menu[rapid.IntRange(0, len(menu)-1).Draw(t, "hvdmenu")]
+			b = append(b, u32(uint32(len(dims)))...)
+			for _, d := range dims {
+				b = append(b, u32(d)...)
+			}
 		case 3: // huge dims count
 			b = append(b, u32(rapid.SampledFrom([]uint32{0x0fffffff, 0x7fffffff, 0xffffffff, 0x80000000}).Draw(t, "hvdc"))...)
 		case 4: // zero dims
